@@ -89,6 +89,20 @@ def _solve_layouts(r, cop, y, v, sig, case, fam, th):
             r.violation(f'{sig}:not-elementwise', f'{fam} theta={th}: element (y={y[idx][i]}, v={v[idx][i]}) gives '
                         f'{out[i]!r} in the {lname} vector but {solo[idx][i]!r} alone', case=case)
             break
+    # the same vectors handed over as pandas Series whose index labels are a permutation of 0..n-1 (positional meaning)
+    import pandas as pd
+    lab = np.argsort((np.arange(n) * 104729) % n, kind='stable')
+    r.tr()
+    try:
+        out = np.asarray(cop.percent_point(pd.Series(y.copy(), index=lab), pd.Series(v.copy(), index=lab)), float)
+        r.ev(n)
+        if out.shape != (n,) or not np.all(np.abs(out - solo) <= 1e-12):
+            i = int(np.argmax(np.abs(out - solo))) if out.shape == (n,) else 0
+            r.violation(f'{sig}:not-elementwise:Series', f'{fam} theta={th}: with y and v given as Series with a permuted integer '
+                        f'index, element {i} (y={y[i]}, v={v[i]}) gives {out[i] if out.shape == (n,) else out!r} but {solo[i]!r} '
+                        f'alone', case=case)
+    except Exception as e:
+        r.violation(f'{sig}:vector-raises:{type(e).__name__}:Series', f'{fam} theta={th}: Series input raised {e}', case=case)
     # vectors in which every v is the same and the y's come in a scrambled (3-cycle) order
     m = int(round(np.sqrt(n)))
     if m * m == n and m >= 3:
